@@ -12,47 +12,53 @@ inductive OpFails (env : Env) (db : Db) : Op → Prop
   | createBlankId (σ f rank) : OpFails env db (.create σ "" f rank)
   | createExists (σ id f rank) : present σ db id = true → OpFails env db (.create σ id f rank)
   | createUnusableKey (σ id f rank) : keyRejected f = true → OpFails env db (.create σ id f rank)
+  /-- unpersistable field value: the tags map holds, at any depth, a value of an unsupported type or an
+      unusable key (no injection: the typed-bucket setters reject the value itself) -/
+  | createUnpersistableValue (σ id f rank) : tagsRejected f.tags = true → OpFails env db (.create σ id f rank)
   | createName (σ id f rank) : nameRejected true db id (createOld σ db id) f = true → OpFails env db (.create σ id f rank)
   | createEmptyRole (σ id f rank) : rolesRejected (createOld σ db id) f = true → OpFails env db (.create σ id f rank)
   | createMissingFk (σ id f rank) :
       refRejected true (db.put id (writtenEnt σ db id f rank)) (createOld σ db id) f = true → OpFails env db (.create σ id f rank)
-  | createVetoParentFlow (id f rank) : vetoed env .P .created id = true → OpFails env db (.create .C id f rank)
+  | createVetoParentFlow (σ id f rank) : σ ≠ .P → vetoed env .P .created id = true → OpFails env db (.create σ id f rank)
   | createVetoOwnFlow (σ id f rank) : vetoed env σ .created id = true → OpFails env db (.create σ id f rank)
   /-- index-stage veto on create, parent flow: a custom constraint of the parent store objects after the write -/
   | createIxVetoParent (σ id f rank) : ixVetoed env .P .afterUpdate id = true → OpFails env db (.create σ id f rank)
   /-- index-stage veto on create, child flow: a custom constraint of the child store objects after the write -/
-  | createIxVetoChild (id f rank) : ixVetoed env .C .afterUpdate id = true → OpFails env db (.create .C id f rank)
+  | createIxVetoChild (σ id f rank) : σ ≠ .P → ixVetoed env σ .afterUpdate id = true → OpFails env db (.create σ id f rank)
   /-- child data created over an existing parent entity: a custom constraint of the parent store objects "before update" -/
-  | createIxVetoOverParent (id f rank) : (db.get id).isSome = true → ixVetoed env .P .beforeUpdate id = true →
-      OpFails env db (.create .C id f rank)
+  | createIxVetoOverParent (σ id f rank) : σ ≠ .P → (db.get id).isSome = true → ixVetoed env .P .beforeUpdate id = true →
+      OpFails env db (.create σ id f rank)
   | updateBlankId (σ f rank) : OpFails env db (.update σ "" f rank)
   | updateNotFound (σ id f rank) : view (updateStore σ db id) db id = none → OpFails env db (.update σ id f rank)
   | updateUnusableKey (σ id f rank) : keyRejected f = true → OpFails env db (.update σ id f rank)
+  | updateUnpersistableValue (σ id f rank) : tagsRejected f.tags = true → OpFails env db (.update σ id f rank)
   | updateName (σ id f rank) : nameRejected false db id ((db.get id).map (·.f)) f = true → OpFails env db (.update σ id f rank)
   | updateEmptyRole (σ id f rank) : rolesRejected ((db.get id).map (·.f)) f = true → OpFails env db (.update σ id f rank)
   | updateMissingFk (σ id f rank) :
       refRejected false (db.put id (writtenEnt σ db id f rank)) ((db.get id).map (·.f)) f = true →
       OpFails env db (.update σ id f rank)
   | updateVetoParentFlow (σ id f rank) : vetoed env .P .updated id = true → OpFails env db (.update σ id f rank)
-  | updateVetoChildFlow (σ id f rank) : updateStore σ db id = .C → vetoed env .C .updated id = true →
+  | updateVetoChildFlow (σ id f rank) : updateStore σ db id ≠ .P → vetoed env (updateStore σ db id) .updated id = true →
       OpFails env db (.update σ id f rank)
   /-- index-stage veto on update, parent flow: before the write (nothing is written) or after it -/
   | updateIxVetoParent (σ id f rank) (stage : Stage) : stage ≠ .beforeDelete → ixVetoed env .P stage id = true →
       OpFails env db (.update σ id f rank)
   /-- index-stage veto on update, child flow (entity with child data, through either store) -/
-  | updateIxVetoChild (σ id f rank) (stage : Stage) : stage ≠ .beforeDelete → updateStore σ db id = .C →
-      ixVetoed env .C stage id = true → OpFails env db (.update σ id f rank)
+  | updateIxVetoChild (σ id f rank) (stage : Stage) : stage ≠ .beforeDelete → updateStore σ db id ≠ .P →
+      ixVetoed env (updateStore σ db id) stage id = true → OpFails env db (.update σ id f rank)
   | deleteNotFound (σ id) : db.get id = none → OpFails env db (.delete σ id)
   | deleteReferenced (σ id) : db.any (fun p => !(p.1 == id) && refBytes p.2.f.ref == id) = true →
       OpFails env db (.delete σ id)
   | deleteVetoParentFlow (σ id) : vetoed env .P .deleted id = true → OpFails env db (.delete σ id)
-  | deleteVetoChildFlow (σ id) : hasChild db id = true → vetoed env .C .deleted id = true →
+  /-- an entity constraint of a child store τ (C or D) that holds the entity vetoes the delete, whichever
+      store the delete is invoked on -/
+  | deleteVetoChildFlow (σ τ id) : τ ≠ .P → (view τ db id).isSome = true → vetoed env τ .deleted id = true →
       OpFails env db (.delete σ id)
   /-- index-stage veto on delete, parent flow -/
   | deleteIxVetoParent (σ id) : ixVetoed env .P .beforeDelete id = true → OpFails env db (.delete σ id)
   /-- index-stage veto on delete, child flow: the entity has child data and a custom constraint registered
       on the child store itself objects (through either store) -/
-  | deleteIxVetoChild (σ id) : hasChild db id = true → ixVetoed env .C .beforeDelete id = true →
+  | deleteIxVetoChild (σ τ id) : τ ≠ .P → (view τ db id).isSome = true → ixVetoed env τ .beforeDelete id = true →
       OpFails env db (.delete σ id)
   | badQuery (σ) : OpFails env db (.deleteWhere σ .bad)
 
@@ -60,9 +66,9 @@ theorem ixVetoedFor_P (env : Env) (σ : StoreId) (stage : Stage) (id : String)
     (h : ixVetoed env .P stage id = true) : ixVetoedFor env σ stage id = true := by
   unfold ixVetoedFor; simp [h]
 
-theorem ixVetoedFor_C (env : Env) (stage : Stage) (id : String)
-    (h : ixVetoed env .C stage id = true) : ixVetoedFor env .C stage id = true := by
-  unfold ixVetoedFor; simp [h]
+theorem ixVetoedFor_child (env : Env) (σ : StoreId) (hσ : σ ≠ .P) (stage : Stage) (id : String)
+    (h : ixVetoed env σ stage id = true) : ixVetoedFor env σ stage id = true := by
+  unfold ixVetoedFor; cases σ <;> simp_all
 
 theorem passVetoes_vetoed (env : Env) (flows : List Flow) (fl : Flow) (hm : fl ∈ flows)
     (hv : vetoed env fl.store fl.kind fl.id = true) : (passVetoes env flows).2 = false := by
@@ -81,22 +87,43 @@ theorem specDelete_accepted' (env : Env) (fault : Fault) (id : String) (db : Db)
     (h : (specDelete env fault id db).accepted = true) :
     (∃ e, db.get id = some e) ∧
     db.any (fun p => !(p.1 == id) && refBytes p.2.f.ref == id) = false ∧
-    ixVetoedFor env (if hasChild db id then .C else .P) .beforeDelete id = false ∧
-    (passVetoes env (delFlows db id)).2 = true := by
+    ixVetoedDel env db id = false ∧
+    (passVetoes env (deleteFlows db id)).2 = true := by
   rw [specDelete_eq] at h
   cases hg : db.get id with
   | none => simp [hg, rejectClean] at h
   | some e =>
     simp only [hg] at h
-    by_cases h1 : faultHits fault (if hasChild db id = true then 3 else 2) (if hasChild db id = true then 1 else 0) 0 0 = true
+    by_cases h1 : faultHits fault (delCounts db id).1 (delCounts db id).2 0 0 = true
     · simp [h1, rejectDirty] at h
     · by_cases h2 : db.any (fun p => !(p.1 == id) && refBytes p.2.f.ref == id) = true
       · simp [h1, h2, rejectDirty] at h
-      · cases h3 : ixVetoedFor env (if hasChild db id then .C else .P) .beforeDelete id with
+      · cases h3 : ixVetoedDel env db id with
         | true => simp [h1, h2, h3, rejectDirty] at h
         | false =>
           simp only [h1, h2, h3, finish] at h
           exact ⟨⟨e, rfl⟩, by simpa using h2, rfl, h⟩
+
+/-- every store that holds the entity has a flow in what a delete announces -/
+theorem deleteFlows_mem (db : Db) (id : String) (τ : StoreId) (h : (view τ db id).isSome = true) :
+    ∃ fl ∈ deleteFlows db id, fl.store = τ ∧ fl.kind = .deleted ∧ fl.id = id := by
+  have hP : (view .P db id).isSome = true := by
+    unfold view at *
+    cases hg : db.get id with
+    | none => simp [hg] at h
+    | some e => simp
+  obtain ⟨pv, hpv⟩ := Option.isSome_iff_exists.mp hP
+  obtain ⟨v, hv⟩ := Option.isSome_iff_exists.mp h
+  unfold deleteFlows
+  simp only [hpv]
+  cases τ with
+  | P => exact ⟨_, List.mem_cons_self .., rfl, rfl, rfl⟩
+  | C =>
+    refine ⟨{ store := .C, kind := .deleted, id := id, initial := some v, final := none, parentEvent := false }, ?_, rfl, rfl, rfl⟩
+    simp [hv]
+  | D =>
+    refine ⟨{ store := .D, kind := .deleted, id := id, initial := some v, final := none, parentEvent := false }, ?_, rfl, rfl, rfl⟩
+    simp [hv]
 
 /-- a create that passes validation and the write rules is decided by the index-stage constraints and
     the pre-commit vetoes -/
@@ -164,6 +191,9 @@ theorem opFails_rejected (env : Env) (fault : Fault) (db : Db) (o : Op) (hf : Op
     | createUnusableKey σ id f rank hk =>
       have := (specCreate_tail env fault σ id f rank db hacc).2.2.1
       simp [writeRejected, hk] at this
+    | createUnpersistableValue σ id f rank hk =>
+      have := (specCreate_tail env fault σ id f rank db hacc).2.2.1
+      simp [writeRejected, keyRejected, hk] at this
     | createName σ id f rank hk =>
       have := (specCreate_tail env fault σ id f rank db hacc).2.2.1
       simp [writeRejected, hk] at this
@@ -173,26 +203,30 @@ theorem opFails_rejected (env : Env) (fault : Fault) (db : Db) (o : Op) (hf : Op
     | createMissingFk σ id f rank hk =>
       have := (specCreate_tail env fault σ id f rank db hacc).2.2.1
       simp [writeRejected, hk] at this
-    | createVetoParentFlow id f rank hv =>
-      have hp := (specCreate_tail env fault .C id f rank db hacc).2.2.2.2
-      simp [writeFlows, passVetoes_two, hv] at hp
+    | createVetoParentFlow σ id f rank hσ hv =>
+      have hp := (specCreate_tail env fault σ id f rank db hacc).2.2.2.2
+      cases σ with
+      | P => exact hσ rfl
+      | C => simp [writeFlows, passVetoes_two, hv] at hp
+      | D => simp [writeFlows, passVetoes_two, hv] at hp
     | createVetoOwnFlow σ id f rank hv =>
       have hp := (specCreate_tail env fault σ id f rank db hacc).2.2.2.2
       cases σ with
       | P => simp [writeFlows, passVetoes_one, hv] at hp
       | C => simp [writeFlows, passVetoes_two, hv] at hp
+      | D => simp [writeFlows, passVetoes_two, hv] at hp
     | createIxVetoParent σ id f rank hv =>
       have := (specCreate_tail env fault σ id f rank db hacc).2.1
       rw [ixVetoedFor_P env σ _ id hv] at this; cases this
-    | createIxVetoChild id f rank hv =>
-      have := (specCreate_tail env fault .C id f rank db hacc).2.1
-      rw [ixVetoedFor_C env _ id hv] at this; cases this
-    | createIxVetoOverParent id f rank hg hv =>
-      have := (specCreate_tail env fault .C id f rank db hacc).1
+    | createIxVetoChild σ id f rank hσ hv =>
+      have := (specCreate_tail env fault σ id f rank db hacc).2.1
+      rw [ixVetoedFor_child env σ hσ _ id hv] at this; cases this
+    | createIxVetoOverParent σ id f rank hσ hg hv =>
+      have := (specCreate_tail env fault σ id f rank db hacc).1
       unfold createOverVetoed createOld at this
       cases hget : db.get id with
       | none => simp [hget] at hg
-      | some e => simp [hget, hv] at this
+      | some e => cases σ <;> simp_all
     | updateBlankId σ f rank =>
       exact (specUpdate_tail env fault σ "" f rank db hacc).1 rfl
     | updateNotFound σ id f rank hn =>
@@ -201,6 +235,9 @@ theorem opFails_rejected (env : Env) (fault : Fault) (db : Db) (o : Op) (hf : Op
     | updateUnusableKey σ id f rank hk =>
       have := (specUpdate_tail env fault σ id f rank db hacc).2.2.2.2.1
       simp [writeRejected, hk] at this
+    | updateUnpersistableValue σ id f rank hk =>
+      have := (specUpdate_tail env fault σ id f rank db hacc).2.2.2.2.1
+      simp [writeRejected, keyRejected, hk] at this
     | updateName σ id f rank hk =>
       have := (specUpdate_tail env fault σ id f rank db hacc).2.2.2.2.1
       simp [writeRejected, hk] at this
@@ -219,10 +256,19 @@ theorem opFails_rejected (env : Env) (fault : Fault) (db : Db) (o : Op) (hf : Op
       | C =>
         rw [hs] at hp
         simp [writeFlows, passVetoes_two, hv] at hp
+      | D =>
+        rw [hs] at hp
+        simp [writeFlows, passVetoes_two, hv] at hp
     | updateVetoChildFlow σ id f rank hs hv =>
       have hp := (specUpdate_tail env fault σ id f rank db hacc).2.2.2.2.2
-      rw [hs] at hp
-      simp [writeFlows, passVetoes_two, hv] at hp
+      cases hse : updateStore σ db id with
+      | P => exact hs hse
+      | C =>
+        rw [hse] at hp hv
+        simp [writeFlows, passVetoes_two, hv] at hp
+      | D =>
+        rw [hse] at hp hv
+        simp [writeFlows, passVetoes_two, hv] at hp
     | updateIxVetoParent σ id f rank stage hst hv =>
       obtain ⟨_, _, hb, ha, _⟩ := specUpdate_tail env fault σ id f rank db hacc
       cases stage with
@@ -231,10 +277,9 @@ theorem opFails_rejected (env : Env) (fault : Fault) (db : Db) (o : Op) (hf : Op
       | beforeDelete => exact hst rfl
     | updateIxVetoChild σ id f rank stage hst hs hv =>
       obtain ⟨_, _, hb, ha, _⟩ := specUpdate_tail env fault σ id f rank db hacc
-      rw [hs] at hb ha
       cases stage with
-      | beforeUpdate => rw [ixVetoedFor_C env _ id hv] at hb; cases hb
-      | afterUpdate => rw [ixVetoedFor_C env _ id hv] at ha; cases ha
+      | beforeUpdate => rw [ixVetoedFor_child env _ hs _ id hv] at hb; cases hb
+      | afterUpdate => rw [ixVetoedFor_child env _ hs _ id hv] at ha; cases ha
       | beforeDelete => exact hst rfl
     | deleteNotFound σ id hn =>
       obtain ⟨⟨e, hg⟩, _⟩ := specDelete_accepted' env fault id db hacc
@@ -244,30 +289,25 @@ theorem opFails_rejected (env : Env) (fault : Fault) (db : Db) (o : Op) (hf : Op
       rw [hr] at hnr; cases hnr
     | deleteVetoParentFlow σ id hv =>
       obtain ⟨⟨e, hg⟩, _, _, hpv⟩ := specDelete_accepted' env fault id db hacc
-      have := passVetoes_vetoed env (delFlows db id)
-        { store := .P, kind := .deleted, id := id, initial := some (.parent id e.f), final := none,
-          parentEvent := e.child.isSome } (by
-            unfold delFlows view
-            simp only [hg]
-            cases hc : e.child <;> simp [deleteFlow]) hv
+      obtain ⟨fl, hm, h1, h2, h3⟩ := deleteFlows_mem db id .P (by unfold view; simp [hg])
+      have := passVetoes_vetoed env (deleteFlows db id) fl hm (by rw [h1, h2, h3]; exact hv)
       rw [this] at hpv; cases hpv
-    | deleteVetoChildFlow σ id hc hv =>
-      obtain ⟨⟨e, hg⟩, _, _, hpv⟩ := specDelete_accepted' env fault id db hacc
-      unfold hasChild at hc
-      simp only [hg, Option.bind_some] at hc
-      obtain ⟨r, hr⟩ := Option.isSome_iff_exists.mp hc
-      have := passVetoes_vetoed env (delFlows db id) (deleteFlow .C id (.child id e.f r)) (by
-            unfold delFlows view
-            simp [hg, hr]) hv
+    | deleteVetoChildFlow σ τ id _ hc hv =>
+      obtain ⟨_, _, _, hpv⟩ := specDelete_accepted' env fault id db hacc
+      obtain ⟨fl, hm, h1, h2, h3⟩ := deleteFlows_mem db id τ hc
+      have := passVetoes_vetoed env (deleteFlows db id) fl hm (by rw [h1, h2, h3]; exact hv)
       rw [this] at hpv; cases hpv
     | deleteIxVetoParent σ id hv =>
       obtain ⟨_, _, hix, _⟩ := specDelete_accepted' env fault id db hacc
-      rw [ixVetoedFor_P env _ _ id hv] at hix; cases hix
-    | deleteIxVetoChild σ id hc hv =>
+      have := ((ixVetoedDel_false env db id).mp hix).1
+      rw [hv] at this; cases this
+    | deleteIxVetoChild σ τ id hτ hc hv =>
       obtain ⟨_, _, hix, _⟩ := specDelete_accepted' env fault id db hacc
-      rw [hc] at hix
-      simp only [if_true] at hix
-      rw [ixVetoedFor_C env _ id hv] at hix; cases hix
+      obtain ⟨_, hC, hD⟩ := (ixVetoedDel_false env db id).mp hix
+      cases τ with
+      | P => exact hτ rfl
+      | C => have := hC hc; rw [hv] at this; cases this
+      | D => have := hD hc; rw [hv] at this; cases this
     | badQuery σ => simp [specOp, rejectClean] at hacc
 
 theorem specSteps_rejected_stays (env : Env) (body : List Step) (b : Body) (hb : b.accepted = false) :
